@@ -1,1 +1,105 @@
-// harnesses for state (cfg(kani) only)
+// Harnesses for src/query/state.rs (cfg(kani) only): C01/C02 nodelist algebra (reduce, flat_map).
+#![allow(unused_imports, dead_code, unused_mut)]
+use super::*;
+use crate::verif_common::*;
+use core::mem::{forget, MaybeUninit};
+
+fn ubuf<'a>() -> [MaybeUninit<Pointer<'a, Mini>>; 4] {
+    [MaybeUninit::uninit(), MaybeUninit::uninit(), MaybeUninit::uninit(), MaybeUninit::uninit()]
+}
+/// operand kind: 0 = Nothing, 1 = single Ref, 2.. = Refs of (kind-2) nodes
+fn operand_data<'a>(nodes: &'a [Mini; 4], buf: &mut [MaybeUninit<Pointer<'a, Mini>>; 4], kind: usize) -> Data<'a, Mini> {
+    if kind == 0 {
+        Data::Nothing
+    } else if kind == 1 {
+        Data::Ref(Pointer::new(&nodes[0], String::from("p")))
+    } else {
+        refs_of(nodes, buf, kind - 2)
+    }
+}
+fn operand_len(kind: usize) -> usize {
+    if kind == 0 { 0 } else if kind == 1 { 1 } else { kind - 2 }
+}
+
+// reduce = concatenation: left nodes first, then right nodes, nothing dropped,
+// nothing de-duplicated (the right operand reuses the left's nodes on purpose).
+macro_rules! c02_reduce {
+    ($name:ident, $kl:expr, $kr:expr) => {
+        proof!($name, 6, {
+            let nodes = [Mini::Int(kani::any()), Mini::Null, Mini::Bool(kani::any()), Mini::Int(kani::any())];
+            let (mut bl, mut br) = (ubuf(), ubuf());
+            let l = operand_data(&nodes, &mut bl, $kl);
+            let r = operand_data(&nodes, &mut br, $kr);
+            let d = l.reduce(r);
+            let mut got = [core::ptr::null::<Mini>(); 8];
+            let n = nodes_of(&d, &mut got);
+            let (nl, nr) = (operand_len($kl), operand_len($kr));
+            assert!(n == nl + nr, "concatenation lost or invented nodes");
+            let mut i = 0;
+            while i < nl {
+                assert!(core::ptr::eq(got[i], &nodes[i]), "concatenation must keep the left operand first, in order");
+                i += 1;
+            }
+            let mut j = 0;
+            while j < nr {
+                assert!(core::ptr::eq(got[nl + j], &nodes[j]), "concatenation must append the right operand in order (duplicates kept)");
+                j += 1;
+            }
+            kani::cover!(true, "end reached");
+            forget(d);
+        });
+    };
+}
+c02_reduce!(c02_reduce_n_n, 0, 0);
+c02_reduce!(c02_reduce_n_r, 0, 1);
+c02_reduce!(c02_reduce_r_n, 1, 0);
+c02_reduce!(c02_reduce_r_r, 1, 1);
+c02_reduce!(c02_reduce_r_v2, 1, 4);
+c02_reduce!(c02_reduce_v2_r, 4, 1);
+c02_reduce!(c02_reduce_v2_v2, 4, 4);
+c02_reduce!(c02_reduce_v2_n, 4, 0);
+c02_reduce!(c02_reduce_n_v2, 0, 4);
+c02_reduce!(c02_reduce_v0_v1, 2, 3);
+c02_reduce!(c02_reduce_v1_v0, 3, 2);
+
+// flat_map = per-node expansion in input order. f maps node 0 -> two nodes,
+// node 1 -> nothing, node 2 -> one node (all distinct markers).
+proof!(c02_flat_map_refs, 6, {
+    let nodes = [Mini::Int(kani::any()), Mini::Null, Mini::Bool(kani::any()), Mini::Int(kani::any())];
+    let outs = [Mini::Int(0), Mini::Int(1), Mini::Int(2), Mini::Int(3)];
+    let mut b = ubuf();
+    let input = refs_of(&nodes, &mut b, 3);
+    let mut ob = ubuf();
+    ob[0].write(Pointer::new(&outs[0], String::from("p")));
+    ob[1].write(Pointer::new(&outs[1], String::from("p")));
+    let obp = ob.as_mut_ptr() as *mut Pointer<Mini>;
+    let d = input.flat_map(|p| {
+        if core::ptr::eq(p.inner, &nodes[0]) {
+            Data::Refs(unsafe { Vec::from_raw_parts(obp, 2, 4) })
+        } else if core::ptr::eq(p.inner, &nodes[1]) {
+            Data::Nothing
+        } else {
+            Data::Ref(Pointer::new(&outs[2], String::from("p")))
+        }
+    });
+    let mut got = [core::ptr::null::<Mini>(); 8];
+    let n = nodes_of(&d, &mut got);
+    assert!(n == 3, "flat_map lost or invented nodes");
+    assert!(core::ptr::eq(got[0], &outs[0]) && core::ptr::eq(got[1], &outs[1]) && core::ptr::eq(got[2], &outs[2]), "flat_map must keep input order");
+    kani::cover!(true, "end reached");
+    forget(d);
+});
+proof!(c02_flat_map_ref_nothing, 6, {
+    let nodes = [Mini::Int(kani::any()), Mini::Null, Mini::Bool(kani::any()), Mini::Int(kani::any())];
+    let outs = [Mini::Int(0), Mini::Int(1)];
+    let d = Data::Ref(Pointer::new(&nodes[0], String::from("p"))).flat_map(|_p| {
+        Data::Refs(vec![Pointer::new(&outs[0], String::from("p")), Pointer::new(&outs[1], String::from("p"))])
+    });
+    let mut got = [core::ptr::null::<Mini>(); 8];
+    let n = nodes_of(&d, &mut got);
+    assert!(n == 2 && core::ptr::eq(got[0], &outs[0]) && core::ptr::eq(got[1], &outs[1]), "flat_map of a single node must be f(node)");
+    let d2: Data<Mini> = Data::Nothing.flat_map(|_p| Data::Ref(Pointer::new(&outs[0], String::from("p"))));
+    assert!(matches!(d2, Data::Nothing), "flat_map of nothing must be nothing");
+    kani::cover!(true, "end reached");
+    forget(d);
+});
